@@ -1,7 +1,7 @@
 #!/usr/bin/env python3
 """Per-property registry: Lean theorems, case generators, execution and classification."""
 import itertools, json, hashlib, collections, os
-import runlib, gen, fixtures
+import runlib, gen, fixtures, alpha
 from alpha import enc
 
 PROPS = {}
@@ -15,7 +15,7 @@ def h(s):
 # execution
 # ------------------------------------------------------------------------------------------------------------
 
-def execute(pid, unit_cases, run_cases):
+def execute(pid, unit_cases, run_cases, pairs=None):
     P = PROPS[pid]
     records = []
     # ---- unit cases: hooked pure helpers of the real crate vs. the model/spec function
@@ -79,6 +79,27 @@ def execute(pid, unit_cases, run_cases):
             if extra:
                 extra(rec, c, r, d)
             records.append(rec)
+        # ---- pair oracles: two runs of the implementation on related cases
+        byid = {c["id"]: (c, r) for c, r in zip(run_cases, recs)}
+        plines, pmeta = [], []
+        for pr in (pairs or []):
+            (ca, ra), (cb, rb) = byid[pr["a"]], byid[pr["b"]]
+            if "out" not in ra or "out" not in rb:
+                if ("out" in ra) != ("out" in rb) and not ("parse_error" in ra or "parse_error" in rb):
+                    records.append(dict(id=pr["id"], kind="pair", corr="n/a", oracle="FAIL:%s:one run produced output, the other did not" % pr["mode"],
+                                        case={"a": ca, "b": cb, "mode": pr["mode"]}, sig=h(pr["id"]), nontrivial=True, detail={}))
+                continue
+            plines.append(alpha.pair_sexpr(pr["id"], pr["mode"], ca, ra, rb))
+            pmeta.append((pr, ca, cb, ra, rb))
+        for (pr, ca, cb, ra, rb), o in zip(pmeta, runlib.run_driver(plines, mode=[pid])):
+            d = runlib.parse_driver_line(o)
+            orc = d.get("oracle", "ok")
+            if pr["mode"] == "same" and orc.startswith("FAIL") and (ra.get("diags") != rb.get("diags")):
+                pass
+            records.append(dict(id=pr["id"], kind="pair", corr="n/a", oracle=orc, case={"a": ca, "b": cb, "mode": pr["mode"]},
+                                sig=h(ca["src"] + json.dumps(ca.get("opts"), sort_keys=True) + json.dumps(cb.get("opts"), sort_keys=True)),
+                                nontrivial="_create" in (ra.get("raw_printed") or ""), detail=d,
+                                impl={"printed_a": ra.get("printed"), "printed_b": rb.get("printed")}))
     return {"records": records}
 
 
@@ -86,8 +107,8 @@ def search_failing(pid, corr_breaks, tier, seed, known_here):
     """the correspondence broke but the oracle was silent: widen the search (fresh seed, larger budget,
     the property's enumerators one step deeper) and evaluate the oracle on the implementation's output"""
     P = PROPS[pid]
-    unit_cases, run_cases, _ = P["cases"]("search", seed + 7919)
-    res = execute(pid, unit_cases, run_cases)
+    unit_cases, run_cases, info = P["cases"]("search", seed + 7919)
+    res = execute(pid, unit_cases, run_cases, info.get("pairs"))
     keys = set(k["key"] for k in known_here)
     return [r for r in res["records"] if r["oracle"].startswith("FAIL:") and r["oracle"].split(":", 2)[1] not in keys]
 
@@ -344,4 +365,66 @@ PROPS["C05"] = {
                  "C05_component_static_arg", "C05_element_binding", "C05_models_sequence", "C05_models_entry_plain", "C05_models_entry_named"],
     "cases": c05_cases,
     "explanation": "oracle: on every element carrying v-model(s) the denoted props (value prop, modifiers prop, onUpdate listener assigning to the target) and directive bindings (vModelText/Checkbox/Radio/Select/Dynamic by host and type) equal those evaluated from the real output; v-models is expanded to the same-order v-model sequence in the denotation",
+}
+
+
+# ---- C12 ---------------------------------------------------------------------------------------------------
+GENERAL_PROFILE = {"tags": ALL_TAGS, "w_directive": 3, "w_spread": 2, "w_repeat": 1,
+                   "attr_names": {"plain": 6, "class": 3, "style": 2, "key": 1, "ref": 1, "onClick": 2, "on": 2, "ns": 1, "onUpdate": 1, "model-like": 1, "on-obj": 1},
+                   "children": {"text": 4, "expr": 4, "ident": 4, "call": 3, "empty": 1, "comment": 1, "spread": 1, "element": 5, "fragment": 1, "fn": 1, "objlit": 1}}
+
+
+def paired_option_cases(r, n, profile, flip, base_opts_fn, prefix):
+    """each generated module twice: options equal except for `flip` (a dict of overrides for the B run)"""
+    run, pairs = [], []
+    hist = collections.Counter()
+    for i in range(n):
+        g = gen.Gen(r, dict(profile))
+        src = g.module()
+        hist.update(g.used)
+        oa = base_opts_fn(r)
+        ob = dict(oa)
+        ob.update(flip(oa))
+        a = {"id": "%s%da" % (prefix, i), "src": src, "tsx": False, "opts": oa}
+        b = {"id": "%s%db" % (prefix, i), "src": src, "tsx": False, "opts": ob}
+        run += [a, b]
+        pairs.append({"id": "%s%d" % (prefix, i), "a": a["id"], "b": b["id"]})
+    return run, pairs, hist
+
+
+def c12_cases(tier, seed):
+    r = gen.Rng(seed)
+    run, pairs = [], []
+    for c in corpus_cases("C12") + fixture_cases(lambda c: not (c["opts"] or {}).get("resolveType")):
+        oa = dict(c["opts"] or {}); oa["optimize"] = True
+        ob = dict(oa); ob["optimize"] = False
+        a = dict(c, id=c["id"] + ":opt", opts=oa); b = dict(c, id=c["id"] + ":noopt", opts=ob)
+        run += [a, b]; pairs.append({"id": c["id"], "mode": "c12", "a": a["id"], "b": b["id"]})
+    def base(rr):
+        o = std_opts(rr); o["optimize"] = True; return o
+    hist = collections.Counter()
+    for k, prof in enumerate([GENERAL_PROFILE, PROPS_PROFILES["C03"], PROPS_PROFILES["C05"], PROPS_PROFILES["C01"]]):
+        rr, pp, hh = paired_option_cases(r, budget(tier, 600, 15000), prof, lambda oa: {"optimize": False}, base, "g%d_" % k)
+        for p in pp:
+            p["mode"] = "c12"
+        run += rr; pairs += pp; hist.update(hh)
+    return [], run, {"rule": "every fixture and %d generated modules (general, component/slots-heavy, v-model-heavy, attribute-heavy grammars; random settings of the other options incl. pragma and customElementPatterns) are run through the REAL visitor under optimize=true and optimize=false; the oracle erases arguments 4-5 of vnode calls and the trailing `_` entry of slot objects from the optimize=true output and requires equality (modulo renaming of generated identifiers)" % (len(pairs)),
+                     "pairs": pairs, "histogram": dict(hist.most_common(40))}
+
+
+PROPS_PROFILES = {
+    "C01": {"tags": ALL_TAGS, "w_directive": 0, "w_spread": 3, "w_repeat": 2,
+            "attr_names": {"plain": 6, "class": 3, "style": 2, "key": 1, "ref": 1, "onClick": 2, "on": 2, "ns": 1, "onUpdate": 1, "model-like": 1, "on-obj": 2}},
+    "C03": {"tags": {"bound": 5, "unbound": 3, "member": 2, "this": 1, "html": 2, "KeepAlive": 1, "Fragment": 1, "_Fragment": 1, "custom": 1},
+            "w_directive": 1, "directives": {"slots": 5, "show": 1, "custom": 1},
+            "children": {"text": 3, "expr": 3, "ident": 5, "call": 5, "empty": 1, "comment": 1, "spread": 1, "element": 4, "fragment": 1, "fn": 2, "objlit": 2},
+            "n_children": [(0, 2), (1, 8), (2, 2), (3, 1)]},
+    "C05": {"tags": {"html": 6, "bound": 4, "unbound": 2, "member": 1, "custom": 1}, "w_directive": 6,
+            "directives": {"model": 8, "models": 3, "show": 1, "custom": 1}},
+}
+
+PROPS["C12"] = {
+    "theorems": ["C12_attrs_blind", "C12_wrap_adds_only_hint", "C12_hint_entry", "C12_erase_wrap", "C12_stack_untouched_when_off", "C12_push_pop_balanced"],
+    "cases": c12_cases,
+    "explanation": "pair oracle on the implementation: eraseHints(output under optimize=true) = output under optimize=false, syntactically, hence under every semantics",
 }
